@@ -2,8 +2,9 @@ SPECIFICATION Spec
 CONSTANTS
   MaxTerm = 2
   MaxBatch = 2
+  WithSnap = TRUE
   Alias = FALSE
-  Families <- TwoLeaders
+  Families <- QuickTwo
 INVARIANTS TypeOK NoPanic CommittedIsLeaders AppliedIsLeaders AckIsDurable AckedNotLost Quiescent
 PROPERTIES ReadyImmutable
 VIEW View
